@@ -361,6 +361,11 @@ impl Number {
                 if !prefixes.contains(&**p) {
                     continue;
                 }
+                // A database is free to define `kilo- 0`. It cannot be
+                // divided by.
+                if !(*v > Numeric::zero()) {
+                    continue;
+                }
                 let abs = val.abs();
                 if abs >= v.pow(orig.1 as i32)
                     && abs < (v * &Numeric::from(1000)).pow(orig.1 as i32)
